@@ -138,6 +138,8 @@ type caseCfg struct {
 	IncludeKind string
 	Include     []string
 	IncludeVia  string
+	// runs over the flag x configuration shapes of the verification switches (faults.go)
+	VerifyShapes []verifyShape
 	// prune reached through `git lfs fetch --prune` (faults.go)
 	FetchRuns []fetchRun
 	// flag sets of the runs on the deliberately damaged repository (the kind of damage depends on the state, see planDamage)
@@ -258,6 +260,7 @@ func genCfg(run *evid.Run, r *rand.Rand, idx int) caseCfg {
 	if c.IncludeKind != "unset" {
 		c.IncludeVia = []string{"local", "lfsconfig", "dash-c", "global", "env"}[(idx/7+idx+rot7)%5]
 	}
+	c.VerifyShapes = genVerifyShapes(run.Seed, idx)
 	c.FetchRuns = genFetchRuns(run.Seed, idx, c.Remote)
 	c.DamageFlagsets = [][]string{{}, [][]string{{"--verify-remote", "--when-unverified=continue"}, {"--recent"}, {"--force"}, {"--verify-remote"}}[(idx/2+int(uint64(run.Seed)%4))%4]}
 	n := len(flagPool)
@@ -311,6 +314,8 @@ type cs struct {
 	blobs map[string]*blobPtr
 	// set once the repository was damaged on purpose (faults.go): the oracle's plumbing must not run any more
 	damaged bool
+	// oids of the two objects of branch `oldb` (stepOldPushedBranch)
+	oldPushed []string
 }
 
 func (c *cs) trigger() string {
@@ -996,6 +1001,7 @@ func (c *cs) buildState() {
 		c.stepTagOnly(c.main)
 	}
 	c.stepVersionBranch()
+	c.stepOldPushedBranch()
 	// final position of the main worktree
 	switch c.r.Intn(4) {
 	case 0:
@@ -1230,6 +1236,13 @@ func runCase(run *evid.Run, idx int) {
 		}
 		sort.Strings(fetchable)
 	}
+	for _, v := range cfg.VerifyShapes {
+		invs = append(invs, v.invocation())
+	}
+	// objects the earlier runs without --force / --recent deleted: certainly prunable in the verification-shape runs
+	prunableSeen := map[string]bool{}
+	var lostForShapes []string
+	shapesPrepared := false
 	// scan failures: planned on the intact repository, applied before the first of the runs that come last
 	dmg := c.planDamage(orc, gitDir, cwdTop)
 	if dmg != nil {
@@ -1249,6 +1262,62 @@ func runCase(run *evid.Run, idx int) {
 		flags := inv.Flags
 		if inv.Damage != "" && !c.damaged {
 			c.applyDamage(dmg, gitDir)
+		}
+		if inv.Shape != "" && !shapesPrepared {
+			// make sure a reachable object the remote has lost is among the prunable ones
+			shapesPrepared = true
+			must := orc.all()
+			var sure, maybe []string
+			for oid := range full {
+				if _, reach := orc.reachable[oid]; !reach || must[oid] || orc.hasExcludedPath(oid) {
+					continue
+				}
+				if _, onServer := srv.Get(cfg.PruneRemote(), oid); !onServer {
+					if has(lost, oid) && prunableSeen[oid] {
+						lostForShapes = append(lostForShapes, oid) // lost already and known to be prunable
+					}
+					continue
+				}
+				if prunableSeen[oid] {
+					sure = append(sure, oid)
+				} else {
+					maybe = append(maybe, oid)
+				}
+			}
+			sort.Strings(sure)
+			sort.Strings(maybe)
+			// the objects of branch `oldb` are prunable by construction
+			var dedicated []string
+			for _, oid := range c.oldPushed {
+				if has(sure, oid) || has(maybe, oid) {
+					dedicated = append(dedicated, oid)
+				}
+			}
+			if len(dedicated) > 0 && len(lostForShapes) == 0 {
+				oid := dedicated[c.r.Intn(len(dedicated))]
+				srv.Delete(cfg.PruneRemote(), oid)
+				lost = append(lost, oid)
+				lostForShapes = append(lostForShapes, oid)
+				run.Count("server_objects_deleted", 1)
+				run.Count("server_objects_deleted_for_verify_shapes", 1)
+			}
+			if len(lostForShapes) == 0 {
+				cand := sure
+				if len(cand) == 0 {
+					cand = maybe
+					run.Count("verify_shape_cases_lost_object_not_known_to_be_prunable", 1)
+				}
+				for _, oid := range c.pick(cand, 2) {
+					srv.Delete(cfg.PruneRemote(), oid)
+					lost = append(lost, oid)
+					lostForShapes = append(lostForShapes, oid)
+					run.Count("server_objects_deleted", 1)
+					run.Count("server_objects_deleted_for_verify_shapes", 1)
+				}
+			}
+			if len(lostForShapes) == 0 {
+				run.Count("verify_shape_cases_without_lost_reachable_object", 1)
+			}
 		}
 		// the coordinate of whatever is found in this run
 		caseTrig := c.trigger()
@@ -1388,7 +1457,43 @@ func runCase(run *evid.Run, idx int) {
 			}
 		}
 		recent := force || has(flags, "--recent")
-		verify := has(flags, "--verify-remote")
+		vm := effectiveVerify(flags, inv.Cfg)
+		verify := vm.Reachable
+		if !dry && !force && !recent && inv.Damage == "" {
+			for _, oid := range deleted {
+				prunableSeen[oid] = true
+			}
+		}
+		if inv.Shape != "" {
+			class += "|verify-shape=" + inv.Shape
+			mode := map[bool]string{true: "on", false: "off"}[vm.Reachable]
+			if vm.Refused {
+				mode = "refused"
+			}
+			run.Count("verify_shape_runs", 1)
+			run.Count("verify_shape_runs_verification_"+mode, 1)
+			run.Count("verify_shape_runs_"+strings.NewReplacer("-", "_", "+", "_and_").Replace(inv.Shape), 1)
+			if len(lostForShapes) > 0 {
+				run.Count("verify_shape_runs_"+mode+"_with_lost_reachable_object_among_prunable", 1)
+				gone := 0
+				for _, oid := range lostForShapes {
+					if _, ok := after[oid]; !ok {
+						gone++
+					}
+				}
+				switch {
+				case vm.Reachable && halted:
+					run.Count("verify_shape_runs_on_halted", 1)
+				case vm.Reachable && gone == 0 && len(deleted) > 0:
+					run.Count("verify_shape_runs_on_continued_and_kept_the_lost_object", 1)
+				case !vm.Reachable && !vm.Refused && gone > 0:
+					run.Count("verify_shape_runs_off_deleted_the_lost_object_as_allowed", 1)
+				}
+			}
+			if vm.Refused && res.OK() {
+				run.Count("verify_shape_runs_refused_combination_exit0", 1)
+			}
+		}
 		bad := map[evid.Sig][]map[string]string{}
 		flag := func(sym, trig, oid, why string) {
 			k := evid.Sig{Symptom: sym, Trigger: trig}
@@ -1397,6 +1502,10 @@ func runCase(run *evid.Run, idx int) {
 		for _, oid := range deleted {
 			if dry {
 				flag("deleted-under-dry-run", caseTrig, oid, "--dry-run")
+			}
+			if vm.Refused {
+				// --verify-remote together with --no-verify-remote: documented as an error, nothing may be deleted
+				flag("deleted-despite-contradictory-verify-flags", "verify-flags/"+inv.Shape, oid, "git-lfs-prune(1) / usage: cannot specify both --verify-remote and --no-verify-remote")
 			}
 			for _, cl := range orc.required(force, recent) {
 				if why, ok := orc.clause[cl][oid]; ok {
@@ -1432,8 +1541,12 @@ func runCase(run *evid.Run, idx int) {
 						if orc.hasExcludedPath(oid) && inv.Damage == "" {
 							trig = "path-matches-fetchexclude"
 						}
+						if inv.Shape != "" {
+							// the flag x configuration shape through which verification is in effect
+							trig = "verify-flags/" + inv.Shape
+						}
 						flag("unverified-reachable-object-pruned", trig, oid, why+"; absent from the server")
-					} else if has(flags, "--verify-unreachable") {
+					} else if vm.Unreachable {
 						// the man page promises this too, the property statement does not: observed, not judged
 						run.Count("observed_not_judged_unreachable_unverified_object_deleted_under_verify_unreachable", 1)
 					}
@@ -1475,13 +1588,14 @@ func main() {
 	if os.Getenv("VERIF_C05_KEEP") == "" {
 		defer sbx.RemoveBase()
 	}
-	run.Rule = "per repository: histgen history (branches, merges incl. octopus, orphan branches, tags, renames/copies/deletes, symlinks, exec bits, empty files, >=2 LFS files per commit in 3/4 of the cases) with commit ages drawn from {0.5,1.5,2.5,5,9,12,30} days; partial push (whole branch / ancestor / nothing / tags) through the pre-push hook to the in-driver fake LFS server; seeded plan over {local commits with 1-3 LFS files, delete+modify commits, stash plain/-u/--keep-index/--staged, staged files, unreachable objects, detached HEAD, branch switches, extra worktrees (detached or on a new branch, with staged file / local commit / stash; at the end 1/4 of them lose their directory, a third of those locked), text files moving in and out of LFS tracking, later pushes, stash drop, objects deleted on the server} x lfs.fetchrecentrefsdays/fetchrecentcommitsdays/pruneoffsetdays in {0,1,3,7} x lfs.fetchexclude patterns x lfs.fetchinclude {unset, matching part of the paths, matching nothing, matching everything} set via {.git/config, ~/.gitconfig, git -c, GIT_CONFIG_COUNT/KEY/VALUE, untracked .lfsconfig of the worktree the command runs in} (by case index, crossed with the drawn fetchexclude; expected to change nothing) x prune remote name x cwd {top, sub-directory, extra worktree} x attribute spelling {track line, text, eol=lf, text eol=lf, diff=custom; tagged: binary, -diff, custom driver declared binary} x ambient ~/.gitconfig profile (9 harmless profiles; tagged: diff.noprefix, log.showroot=false, diff.relative) x remotes {single; in 1/3 of the cases a second remote `upstream` with its own LFS store, 2-3 branches with fresh objects pushed only to it with tip ages on both sides of the recent-refs window, one more pushed only to the first remote, local branches deleted (sometimes kept)} x lfs.pruneremotetocheck {unset, first remote, upstream} x lfs.fetchrecentremoterefs {unset, true, false} x a pushed recent branch `vb` whose commit inside the recent-commits window measured from its own tip replaces an LFS file (when both windows are > 0) x final worktree states: one dedicated extra worktree per case with kind by case index in {present, present+staged LFS file, present detached, directory removed (Git: prunable), removed detached, removed + git worktree lock, removed + git worktree prune (registration gone)}, a second one in half of the cases; in 3/4 (always for kind removed) its HEAD is a dedicated commit aged 30 days with two fresh LFS files, pushed to the prune remote, so that only the registered worktree's checkout needs them; occasionally git worktree prune as last step x flag sets {--dry-run + X, (none), --recent, --force, --verify-remote, +--verify-unreachable, +--when-unverified=continue, combinations}. Route: `git lfs prune <flags>`, and 1-2 runs per case through `git lfs fetch --prune [remote]` (verification via lfs.pruneverifyremotealways / lfs.pruneverifyunreachablealways, --dry-run, with and without lfs.fetchrecentalways and the remote argument; two objects of HEAD removed before so that the fetch part downloads). Last in every case: scan-failure runs: after the must-retain set was computed, one loose Git object a scan needs {stash commit / tree, newest unpushed commit / its tree, HEAD~1, HEAD's tree, tree of a recent branch tip, HEAD commit of another registered worktree} is deleted / emptied / overwritten with garbage, or refs/heads/broken is planted pointing at a missing commit (kind by case index, first applicable), then prune with (none) and one of {--verify-remote [--when-unverified=continue], --recent, --force} (+ fetch --prune in 1/3). One evaluation = one such run on the fully restored store. Class = (known trigger in the case, attribute spelling, ambient profile, cwd kind, kinds of the dedicated worktrees, remotes/prune remote/fetchrecentremoterefs, flags). Each period of 18 cases has 10 without any known trigger and 8 with exactly one."
+	run.Rule = "per repository: histgen history (branches, merges incl. octopus, orphan branches, tags, renames/copies/deletes, symlinks, exec bits, empty files, >=2 LFS files per commit in 3/4 of the cases) with commit ages drawn from {0.5,1.5,2.5,5,9,12,30} days; partial push (whole branch / ancestor / nothing / tags) through the pre-push hook to the in-driver fake LFS server; seeded plan over {local commits with 1-3 LFS files, delete+modify commits, stash plain/-u/--keep-index/--staged, staged files, unreachable objects, detached HEAD, branch switches, extra worktrees (detached or on a new branch, with staged file / local commit / stash; at the end 1/4 of them lose their directory, a third of those locked), text files moving in and out of LFS tracking, later pushes, stash drop, objects deleted on the server} x lfs.fetchrecentrefsdays/fetchrecentcommitsdays/pruneoffsetdays in {0,1,3,7} x lfs.fetchexclude patterns x lfs.fetchinclude {unset, matching part of the paths, matching nothing, matching everything} set via {.git/config, ~/.gitconfig, git -c, GIT_CONFIG_COUNT/KEY/VALUE, untracked .lfsconfig of the worktree the command runs in} (by case index, crossed with the drawn fetchexclude; expected to change nothing) x prune remote name x cwd {top, sub-directory, extra worktree} x attribute spelling {track line, text, eol=lf, text eol=lf, diff=custom; tagged: binary, -diff, custom driver declared binary} x ambient ~/.gitconfig profile (9 harmless profiles; tagged: diff.noprefix, log.showroot=false, diff.relative) x remotes {single; in 1/3 of the cases a second remote `upstream` with its own LFS store, 2-3 branches with fresh objects pushed only to it with tip ages on both sides of the recent-refs window, one more pushed only to the first remote, local branches deleted (sometimes kept)} x lfs.pruneremotetocheck {unset, first remote, upstream} x lfs.fetchrecentremoterefs {unset, true, false} x a pushed recent branch `vb` whose commit inside the recent-commits window measured from its own tip replaces an LFS file (when both windows are > 0) x final worktree states: one dedicated extra worktree per case with kind by case index in {present, present+staged LFS file, present detached, directory removed (Git: prunable), removed detached, removed + git worktree lock, removed + git worktree prune (registration gone)}, a second one in half of the cases; in 3/4 (always for kind removed) its HEAD is a dedicated commit aged 30 days with two fresh LFS files, pushed to the prune remote, so that only the registered worktree's checkout needs them; occasionally git worktree prune as last step x flag sets {--dry-run + X, (none), --recent, --force, --verify-remote, +--verify-unreachable, +--when-unverified=continue, combinations}. Route: `git lfs prune <flags>`, and 1-2 runs per case through `git lfs fetch --prune [remote]` (verification via lfs.pruneverifyremotealways / lfs.pruneverifyunreachablealways, --dry-run, with and without lfs.fetchrecentalways and the remote argument; two objects of HEAD removed before so that the fetch part downloads). Last in every case: scan-failure runs: after the must-retain set was computed, one loose Git object a scan needs {stash commit / tree, newest unpushed commit / its tree, HEAD~1, HEAD's tree, tree of a recent branch tip, HEAD commit of another registered worktree} is deleted / emptied / overwritten with garbage, or refs/heads/broken is planted pointing at a missing commit (kind by case index, first applicable), then prune with (none) and one of {--verify-remote [--when-unverified=continue], --recent, --force} (+ fetch --prune in 1/3). Two runs per case over the verification switches: flags {--verify-remote, --no-verify-remote, --verify-unreachable, --no-verify-unreachable, --when-unverified=halt|continue} x configuration {lfs.pruneverifyremotealways, lfs.pruneverifyunreachablealways in unset/true/false, via GIT_CONFIG_*} in 18 shapes of three groups (in effect through configuration only; in effect with --no-verify-unreachable added; switched off by --no-verify-remote against configuration true, refused --verify-remote + --no-verify-remote, flag against configuration false, lone switches), after a reachable, pushed, prunable object was deleted on the server. One evaluation = one such run on the fully restored store. Class = (known trigger in the case, attribute spelling, ambient profile, cwd kind, kinds of the dedicated worktrees, remotes/prune remote/fetchrecentremoterefs, flags). Each period of 18 cases has 10 without any known trigger and 8 with exactly one."
 	run.Assumptions = []string{
 		"must-retain is a lower bound: weakest readings are documented in oracle.go (checkout = HEAD tree of every non-bare entry of `git worktree list --porcelain`, directory present or not, until `git worktree prune` unregisters it; index only of worktrees whose directory exists; recent remote refs = tips of remote-tracking branches of every remote unless lfs.fetchrecentremoterefs=false; stash = objects the stash commits add relative to their base commit; recent refs = local branches only; previous versions = pointers replaced by a pointer or deleted in a non-merge commit reachable through in-window commits; unpushed = in a tree of a commit reachable from a local branch/tag and in no tree of a commit reachable from refs/remotes/<prune remote>/*; fetchexclude exempts generously; --force waives everything but unpushed)",
 		"commit ages are >= 12 h away from every window boundary; the only use of the wall clock is the base time the ages are subtracted from",
 		"objects reachable from the remote-tracking refs were uploaded by the pre-push hook (the fake server loses only the objects the driver deletes)",
 		"scan-failure runs are judged against the must-retain set computed BEFORE the damage (for the flags given), whatever prune's exit status; no Git plumbing of the oracle runs on the damaged repository; a damage prune does not stumble over (it succeeds) is only counted",
 		"lfs.fetchinclude has no influence on any must-retain clause (git-lfs-prune(1) and the property name lfs.fetchexclude only); an object all of whose retaining paths lie outside the include patterns carries the trigger fetchinclude-set",
+		"verification of reachable objects is in effect iff (--verify-remote or lfs.pruneverifyremotealways=true) and not --no-verify-remote (git-lfs-prune(1): flags override configuration; the *unreachable* switches only extend it to unreachable objects); --verify-remote with --no-verify-remote must be refused and delete nothing; with verification off nothing is demanded by the verification clause",
 		"git 2.39.5, TZ=UTC",
 	}
 	n := run.N(18, 198)
